@@ -46,9 +46,8 @@ MUTANTS = {
     'exit-zero-on-failure': ('C11', 'jug/jug.py', "    return failures\n", "    return False\n"),
     'swallow-systemexit': ('C12', 'jug/jug.py', "            except SystemExit:\n                raise\n", "            except SystemExit:\n                pass\n"),
     'remove-locks-noop': ('C13', 'jug/subcommands/cleanup.py', "            removed = store.remove_locks()\n", "            removed = 0\n"),
-    'recovery-reruns-stored': ('C13', 'jug/jug.py',
-                               "            if t.can_load():\n                jug_hook('execute.task-loadable', (t,))\n                continue\n",
-                               "            pass\n"),
+    # not a mutant: dropping the pre-lock `if t.can_load(): continue` of the upnext loop changes nothing observable, the re-check
+    # under the lock still protects every task (C13 stays green, as it should)
 }
 
 
